@@ -121,8 +121,15 @@ func selfTest(repo, vdir string, p *props.Property) *selfTestResult {
 		for _, pre := range s.Prefixes {
 			pkgs[strings.SplitN(strings.TrimPrefix(pre, "("), ".", 2)[0]] = true
 		}
-		if strings.HasPrefix(s.Run, "G") {
-			pkgs[strings.TrimPrefix(s.Run, "G")] = true
+		for _, pk := range map[string][]string{
+			"Gcsync": {"csync"}, "Groutine": {"routine"}, "Gkeyed": {"keyed"}, "Grefcount": {"refcount"},
+			"Gpromise": {"promise", "memo"}, "Gccall": {"ccall"}, "Gconc": {"conc"}, "Gccontainer": {"ccontainer"},
+			"Gio": {"ioseek", "iosizer", "iocloser", "ioproxy", "unique"}, "Gcodec": {"padding", "commonprefix", "prng"},
+			"Gqueue": {"cqueue", "linkedlist"}, "R3": {"routine", "keyed", "refcount"},
+		}[s.Run] {
+			if s.Scope == nil || s.Run != "R3" {
+				pkgs[pk] = true
+			}
 		}
 	}
 	silent, _ := filepath.Glob(filepath.Join(vdir, "silent", "*.diff"))
